@@ -39,7 +39,7 @@ IMPORTS_SPEC_ONLY = 'Require Import SF.Prelude SF.PySlice SF.Dtype SF.Value SF.G
 RULE = ('api strata: public iter_group_items / iter_group_labels_items / iter_group*.apply / iter_window_items calls on generated Series and Frames -- exhaustive value sequences of length <= 4 over 3 values for Series, '
         'every block layout of frames with <= 3 columns (thorough: <= 4), both axes, element/list/slice keys of 1-3 positions, key dtypes int/str/bool/float/object(orderable, mixed, colliding str()), flat and hierarchical axes, '
         'one group / all-distinct / duplicated keys; windows: the grid n<=6, size<=4, step<=3, shifts in [-3,3], increment in [-1,1], window_sized on/off (thorough: complete, quick: boundary + random sample) on Series (Series and array windows), plus Frames on both axes; longer axes (17-60 positions, 2-4 interleaved keys of dtype int64/float64/bool/str/int16/uint8, both axes) on the sort path so that an unstable sort shows as a changed order inside a group; a second window grid n<=9, size<=3, start_shift down to -(n+2), label_shift up to n+2 (thorough: complete; quick: every run samples the anchors lying wholly left of the container that still have a label); '
-        'the other public forms of the same iterators (iter_group / iter_group_labels iterated without keys, apply over values and over items, apply_iter, apply_iter_items, apply_pool with threads over values and items; window_valid / window_func callbacks and the apply family over windows) on Series, SeriesHE, Frame, FrameGO, FrameHE; key dtypes also uint8, bytes, datetime64[D]; date-typed inner levels and IndexDate indices; integer (non-positional) labels; ndarray-of-labels and Boolean-mask keys; empty and 1x1 shapes; the values-only forms list(iter_window(...)) / list(iter_window_array(...)) on Series and on Frames of both axes (sequence of windows = map snd of the items), weighted to label_shift != 0; FrameGO receivers whose first yielded group is grown in place during the iteration; kernel stratum: util.array_to_groups_and_locations called directly; malformed stream: absent key, invalid axis, size<=0, step<0. '
+        'the other public forms of the same iterators (iter_group / iter_group_labels iterated without keys, apply over values and over items, apply_iter, apply_iter_items, apply_pool with threads over values and items; window_valid / window_func callbacks and the apply family over windows) on Series, SeriesHE, Frame, FrameGO, FrameHE; key dtypes also uint8, bytes, datetime64[D]; date-typed inner levels and IndexDate indices; integer (non-positional) labels; ndarray-of-labels and Boolean-mask keys; empty and 1x1 shapes; composite object-dtype keys adversarial under stringification ((1,1x)/(11,x), (a,bc)/(ab,c), empty-string parts, None/None-as-text, 1/1-as-text/1.0/True) on both axes and for label-depth lists; the values-only forms list(iter_window(...)) / list(iter_window_array(...)) on Series and on Frames of both axes (sequence of windows = map snd of the items), weighted to label_shift != 0; FrameGO receivers whose first yielded group is grown in place during the iteration; kernel stratum: util.array_to_groups_and_locations called directly; malformed stream: absent key, invalid axis, size<=0, step<0. '
         'A group case is non-trivial when it has >= 2 groups and some group with >= 2 members; a window case when at least one window is yielded and at least one anchor is rejected or clipped; '
         'distinct = distinct (call, input, parameters).')
 ASSUMPTIONS = [
@@ -1056,6 +1056,103 @@ def long_group_cases(ctx):
         yield frame_group_case(ctx, spec, layout, axis, 'element', [0], 'api:frame.iter_group_items[long]')
 
 
+# composite keys whose parts are ADVERSARIAL under stringification: distinct key tuples that read the same once their parts
+# are stringified and run together ((1,'1x') / (11,'x'); ('a','bc') / ('ab','c'); '' parts), next to parts that collide or
+# split one by one (None / 'None', 1 / '1', 1 / 1.0 / True: the known str-fallback class, tagged from the input)
+_ADV_POOLS = [
+    [(1, '1x'), (11, 'x'), (1, 'x'), (11, '1x')],
+    [('a', 'bc'), ('ab', 'c'), ('abc', ''), ('', 'abc'), ('a', 'b')],
+    [(1, ''), ('', 1), (1, 1), ('1', ''), (11, '')],
+    [(None, 'x'), ('None', 'x'), ('Non', 'ex'), (None, 'ex')],
+    [(1, 'a'), (1.0, 'a'), (True, 'a'), ('1', 'a'), (10, 'a')],
+    [(1, 2, '3'), (12, '', '3'), (1, 23, ''), (1, '2', '3'), ('', 12, '3')],
+    [('a', 1, 'b'), ('a1', '', 'b'), ('a', '1b', ''), ('', 'a1', 'b')],
+]
+
+
+def _obj_array(values):
+    a = np.empty(len(values), dtype=object)
+    for i, v in enumerate(values):
+        a[i] = v
+    return a
+
+
+def adversarial_key_cases(ctx):
+    import static_frame as sf
+    for i in range(ctx.n(56, 400)):
+        pool = _ADV_POOLS[i % len(_ADV_POOLS)]
+        width = len(pool[0])
+        n = ctx.rng.randint(2, 7)
+        keys = [ctx.rng.choice(pool) for _ in range(n)]
+        if len(set(map(repr, keys))) < 2:
+            keys[0], keys[-1] = pool[0], pool[1]
+        route = ['axis0', 'axis0-apply', 'axis1', 'axis1-apply', 'labels-series', 'labels-frame', 'labels-apply'][(i // len(_ADV_POOLS)) % 7]
+        if route.startswith('axis'):
+            axis = int(route[4])
+            if axis == 0:     # one object column per key part + an id column
+                arrays = [_obj_array([k[j] for k in keys]) for j in range(width)] + [np.arange(n, dtype=np.int64)]
+                cols = [[k[j] for k in keys] for j in range(width)] + [list(range(n))]
+                index_labels, col_labels = [f'r{j}' for j in range(n)], [f'k{j}' for j in range(width)] + ['id']
+                kinds = ['obj-mix'] * width + ['int']
+            else:             # one object column per key, the key parts in the first `width` rows
+                arrays = [_obj_array(list(k) + [j]) for j, k in enumerate(keys)]
+                cols = [list(k) + [j] for j, k in enumerate(keys)]
+                index_labels, col_labels = [f'k{j}' for j in range(width)] + ['id'], [f'c{j}' for j in range(n)]
+                kinds = ['obj-mix'] * n
+            dts = [a.dtype for a in arrays]
+            spec = {'kinds': kinds, 'cols': cols, 'arrays': arrays, 'dtypes': dts, 'index_labels': index_labels, 'col_labels': col_labels,
+                    'index': sf.Index(index_labels), 'columns': sf.Index(col_labels), 'layouts': list(zoo.layouts_for(dts)), 'mode': 'dup',
+                    'hier_index': False, 'hier_columns': False}
+            positions = list(range(width))
+            if ctx.rng.random() < 0.3:
+                ctx.rng.shuffle(positions)
+            keykind = ctx.rng.choice(['list', 'list', 'slice', 'array']) if positions == sorted(positions) else 'list'
+            yield frame_group_case(ctx, spec, ctx.rng.choice(spec['layouts']), axis, keykind, positions, 'api:frame.iter_group[adversarial-keys]',
+                                   form=('apply' if route.endswith('apply') else None))
+        else:
+            # label-depth lists: the hierarchy must be tree ordered -> sort the distinct keys by their outer parts, all depths as strings or ints
+            if any(not isinstance(p, (int, str)) or isinstance(p, bool) for k in pool for p in k) or any(type(k[0]) is not type(pool[0][0]) for k in pool):
+                pool = [('a', 11), ('a1', 1), ('a', 1), ('a1', 11)] if i % 2 else [('a', 'bc'), ('ab', 'c'), ('abc', ''), ('a', 'b')]
+                width = 2
+            distinct = sorted(set(pool), key=lambda k: tuple(str(p) for p in k[:-1]))
+            labels, seen = [], set()
+            for k in distinct:     # make labels unique with a trailing counter depth
+                labels.append(tuple(k) + (0,))
+                if ctx.rng.random() < 0.6:
+                    labels.append(tuple(k) + (1,))
+            try:
+                index = sf.IndexHierarchy.from_labels(labels)
+            except Exception:
+                continue
+            depth = list(range(width))
+            ks = ('depths', depth)
+            m = len(labels)
+            if route == 'labels-series':
+                c, axis = sf.Series(np.arange(m), index=index), 0
+                itv, iti, callname = (lambda: c.iter_group_labels(depth)), (lambda: c.iter_group_labels_items(depth)), f'series.iter_group_labels({depth})'
+            else:
+                axis = ctx.rng.choice([0, 1])
+                c = (sf.Frame(np.arange(m * 2).reshape(m, 2), index=index, columns=('x', 'y')) if axis == 0
+                     else sf.Frame(np.arange(m * 2).reshape(2, m), index=('x', 'y'), columns=index))
+                itv, iti, callname = (lambda: c.iter_group_labels(depth, axis=axis)), (lambda: c.iter_group_labels_items(depth, axis=axis)), f'frame.iter_group_labels({depth}, axis={axis})'
+            rows = axis_rows(c, axis)
+            lkeys = [tuple(l[d] for d in depth) for l, _ in rows]
+            part_dtype = lambda vs: (np.dtype(np.int64) if all(isinstance(v, int) and not isinstance(v, bool) for v in vs)
+                                     else np.dtype('<U4') if all(isinstance(v, str) for v in vs) else np.dtype(object))
+            obj = resolved_obj([part_dtype([k[d] for k in lkeys]) for d in depth])
+            tags = fallback_tags({'api': 'iter_group_labels', 'adversarial': True, 'multi_depth': True}, obj, True, lkeys)
+            mcall = f'(M_unique_api {lit.b(obj)} {keyspec_lit(ks)} {rows_lit(rows)})'
+            scall = f'(S_group_api {keyspec_lit(ks)} {rows_lit(rows)})'
+            desc = {'labels': [repr(l) for l in labels], 'depth_level': depth, 'container': route}
+            if route == 'labels-apply':
+                yield form_case(ctx, 'api:iter_group_labels[adversarial-keys]', desc, tags, lkeys, rows, axis, mcall, scall, itv, iti, 'apply', callname)
+            else:
+                st, out = run(lambda: [(key_py(k), axis_rows(g, axis)) for k, g in iti()])
+                obs = res_lit(st, out, groups_lit)
+                yield Case('api:iter_group_labels[adversarial-keys]', dict(desc, call=callname.replace('(', '_items(', 1), observed=brief(out, st)),
+                           m=f'gres_eqb {obs} {mcall}', s=f'gres_same {obs} {scall}', tags=tags, nontrivial=nontrivial_groups(lkeys))
+
+
 def labels_cases(ctx):
     '''iter_group_labels_items / iter_group_labels(...).apply on hierarchical (and a few flat) axes'''
     import static_frame as sf
@@ -1521,6 +1618,7 @@ def cases(ctx):
     yield from corpus_cases(ctx)
     yield from series_group_cases(ctx)
     yield from frame_group_cases(ctx)
+    yield from adversarial_key_cases(ctx)
     yield from forms_cases(ctx)
     yield from edge_cases(ctx)
     yield from go_group_cases(ctx)
